@@ -273,11 +273,22 @@ class World:
         return d, files
 
     # -- commands (each on a fresh Repository object, like a fresh process)
-    async def snapshot(self, user, src_dir, files, backend=None, note=None, record=True, fresh=False, rate_limit=None):
-        r = await self.unlocked(user, backend, fresh=fresh)
-        calls = getattr(self.backend, 'calls', [])
-        before = sum(1 for c in calls if c[0] == 'upload_stream')
-        res = await r.snapshot(paths=list(src_dir) if isinstance(src_dir, (list, tuple)) else [src_dir], note=note, rate_limit=rate_limit)
+    async def snapshot(self, user, src_dir, files, backend=None, note=None, record=True, fresh=False, rate_limit=None, same_object=False):
+        if same_object and backend is not None and getattr(self, 'long_lived', False):
+            # library use: the command that meets the failing backend call is issued on the user's long-lived Repository object,
+            # which goes on to serve the later commands of the history (the process did not die: the call returned an error)
+            r = await self.unlocked(user)
+            healthy, r.backend = r.backend, backend
+            try:
+                res = await r.snapshot(paths=list(src_dir) if isinstance(src_dir, (list, tuple)) else [src_dir], note=note, rate_limit=rate_limit)
+            finally:
+                r.backend = healthy
+            calls, before = [], 0
+        else:
+            r = await self.unlocked(user, backend, fresh=fresh)
+            calls = getattr(self.backend, 'calls', [])
+            before = sum(1 for c in calls if c[0] == 'upload_stream')
+            res = await r.snapshot(paths=list(src_dir) if isinstance(src_dir, (list, tuple)) else [src_dir], note=note, rate_limit=rate_limit)
         uploaded = [c[1] for c in calls[0:] if c[0] == 'upload_stream'][before:]
         if not record:
             return res, {r._chunk_digest_to_location(d): (user['fam'], self.did(d)) for d in res.chunks}
@@ -778,13 +789,13 @@ def run_history(seed, scratch: Path, rep: Report, *, nops, weights, checks, conc
                         # command has already uploaded and only references them
                         mate = rng.choice([u for u in world.users if u['fam'] == user['fam']])
                         # (if the fault point is never reached - the other session uploaded first - the command completes: recorded)
-                        res_ = await asyncio.wait_for(asyncio.gather(world.snapshot(user, src_dir, files, backend=fb, record=True),
+                        res_ = await asyncio.wait_for(asyncio.gather(world.snapshot(user, src_dir, files, backend=fb, record=True, same_object=late),
                                                                       world.snapshot(mate, src_dir, files, fresh=True), return_exceptions=True), 90)
                         overlapped = res_[1]
                         if isinstance(overlapped, BaseException):
                             viol('exception', f'a fault-free snapshot overlapping a failing one raised {type(overlapped).__name__}: {str(overlapped)[:120]}')
                     else:
-                        await asyncio.wait_for(world.snapshot(user, src_dir, files, backend=fb, record=False), 60)
+                        await asyncio.wait_for(world.snapshot(user, src_dir, files, backend=fb, record=False, same_object=late), 60)
                 except BaseException:
                     pass
                 if late:
